@@ -8,8 +8,8 @@ import (
 // Atom describes one atomic condition of a generated filter.
 type Atom struct {
 	Col      string
-	Op       string // eq ne lt le gt ge nse in notin isnull notnull between notbetween like nsenull
-	LitClass string // pool near null-in-list dup-in-list reversed ood ...
+	Op       string   // eq ne lt le gt ge nse in notin isnull notnull between notbetween like nsenull
+	LitClass string   // pool near null-in-list dup-in-list reversed ood ...
 	Lits     []string // the literal texts used (NULL included)
 	SQL      string
 }
